@@ -91,3 +91,13 @@ claim("C19",
       "block_init marks every inconsistent restart layout empty and block_iter_init stops on blocks shorter than 8 bytes. Presence and dominance of the "
       "guards are decided, not the algebra of each inequality (overflow corner cases of the arithmetic are not decided).",
       "Trusts T-extent (which callee reads how many bytes), mmap/fstat contracts, and data-block lengths at get_block being outside this property's statement.")
+
+claim("C18",
+      "ownership dataflow (acquire -> release | transfer on every path to every normal exit, per T-own) by abstract path evaluation of every library function; path-wise release completeness of owning fields at each free of a record",
+      "Decides: in every library function each descriptor, mapping, heap block, vector or object obtained from an acquiring call is released, returned, "
+      "stored into an object or handed to a consuming parameter on every path to every normal exit (failed acquisitions hold nothing, NORETURN exits exempt); "
+      "at every free of a record each owning field (one that anywhere receives an acquired value) was released or moved earlier on that path or never assigned; "
+      "munmap uses the mapped length; the three listed indirections (queue released by the joined result thread, reference-counted shared fileset, writer's "
+      "closed flag) are verified structurally. Leak freedom over all API histories (aliasing through containers, element-wise release loops) and the temp-file "
+      "namespace are not decided; teardown order versus the handler thread is decided in C13.R3.",
+      "Trusts T-own (which calls acquire/release/consume/borrow), inference of consuming parameters from 'parameter stored into an object', loop bound 1.")
